@@ -381,4 +381,106 @@ theorem compiledHashPanics_flat_iff (cap : Nat) (hcap : cap < 2 ^ 64) (l : UInt6
     simp at h
     omega
 
+/-! ### the bridge between `accept`'s class map and the spelled-out class hash
+
+`accept` (ModelAccept.lean) sees a new class as `(key, ⟨cairo0, number Hash() returned⟩)`. Under the standing
+ideal-hash assumption — the evaluation of hash terms to numbers is injective — that map is the image of the
+term-level definitions, and the two verifications agree. -/
+
+/-- the `Classes` argument of `accept` that corresponds to term-level definitions under an evaluation `eval` of terms
+to field elements (`Hash()` failing is represented by any number different from the key) -/
+def classesOfT (limited : Bool) (eval : Term → Nat) (cs : List (Term × ClsDef)) : Classes :=
+  cs.map (fun kc => (eval kc.1,
+    match kc.2 with
+    | .cairo0 => ({ cairo0 := true, computedHash := 0 } : ClassDef)
+    | .sierra c => { cairo0 := false, computedHash := match sierraClassHashWith limited c with | some h => eval h | none => eval kc.1 + 1 }))
+
+theorem verifyClassHashes_classesOfT (limited : Bool) (eval : Term → Nat) (hinj : ∀ a b, eval a = eval b → a = b)
+    (cs : List (Term × ClsDef)) : verifyClassHashes (classesOfT limited eval cs) = verifyClassHashesT limited cs := by
+  unfold verifyClassHashes verifyClassHashesT classesOfT
+  rw [List.all_map]
+  congr 1
+  funext kc
+  obtain ⟨k, d⟩ := kc
+  cases d with
+  | cairo0 => simp
+  | sierra c =>
+    cases hh : sierraClassHashWith limited c with
+    | none => simp [hh]
+    | some h =>
+      by_cases e : h = k
+      · subst e; simp [hh]
+      · have : eval h ≠ eval k := fun he => e (hinj _ _ he)
+        simp only [Function.comp, hh, Bool.false_or]
+        rw [beq_eq_false_iff_ne.mpr this, beq_eq_false_iff_ne.mpr e]
+
+/-! ### the casm step and `ClassDef.compiledBad` -/
+
+theorem casmV1_stops_at_compiledBad (n : UInt64) (v2of : Nat → Nat) (cs : Classes) : ∀ (m : FMap),
+    (∃ kc ∈ m, ∃ x, cs.find? (fun y => y.1 == kc.1) = some x ∧ x.2.cairo0 = false ∧ x.2.compiledBad = true) →
+    ∃ e, casmV1 n v2of cs m = .error e
+  | [], h => by obtain ⟨_, hm, _⟩ := h; simp at hm
+  | (c, casm) :: rest, h => by
+    simp only [casmV1]
+    cases hf : cs.find? (fun kc => kc.1 == c) with
+    | none => exact ⟨_, rfl⟩
+    | some kc =>
+      simp only
+      by_cases hc : kc.2.cairo0 = true
+      · simp [hc]
+      · simp only [hc, Bool.false_eq_true, if_false]
+        by_cases hb : kc.2.compiledBad = true
+        · exact ⟨_, by rw [if_pos hb]⟩
+        · rw [if_neg hb]
+          obtain ⟨kc', hm, x, hx, hx0, hxb⟩ := h
+          rcases List.mem_cons.mp hm with rfl | hm
+          · simp only at hx; rw [hf] at hx; cases hx; exact absurd hxb hb
+          · obtain ⟨e, he⟩ := casmV1_stops_at_compiledBad n v2of cs rest ⟨kc', hm, x, hx, hx0, hxb⟩
+            exact ⟨e, by rw [he]⟩
+
+theorem casmStepWith_stops_at_compiledBad (chk : Bool) (db : IDB) (h : Header) (d : StateDiff) (cs : Classes) (v2of : Nat → Nat)
+    (v : Ver) (hp : parseVersion h.version = some v) (hv : v.ge v0_14_1 = false)
+    (hm : ∃ kc ∈ d.declaredV1, ∃ x, cs.find? (fun y => y.1 == kc.1) = some x ∧ x.2.cairo0 = false ∧ x.2.compiledBad = true) :
+    ∃ e, casmStepWith chk db h d cs v2of = .error e := by
+  unfold casmStepWith
+  simp only [hp, hv, Bool.false_eq_true, if_false]
+  exact casmV1_stops_at_compiledBad h.number v2of cs d.declaredV1 hm
+
+theorem find_map_cairo0 (cs cs' : Classes) (hc : cs'.map (fun x => (x.1, x.2.cairo0)) = cs.map (fun x => (x.1, x.2.cairo0))) (c : Nat) :
+    (cs'.find? (fun kc => kc.1 == c)).map (fun x => x.2.cairo0) = (cs.find? (fun kc => kc.1 == c)).map (fun x => x.2.cairo0) := by
+  induction cs generalizing cs' with
+  | nil => cases cs' with
+    | nil => rfl
+    | cons a as => simp at hc
+  | cons b bs ih =>
+    cases cs' with
+    | nil => simp at hc
+    | cons a as =>
+      simp only [List.map_cons, List.cons.injEq, Prod.mk.injEq] at hc
+      obtain ⟨⟨h1, h2⟩, ht⟩ := hc
+      simp only [List.find?_cons, h1]
+      by_cases hk : (b.1 == c) = true
+      · simp [hk, h2]
+      · simp only [hk]
+        exact ih as ht
+
+theorem casmV2DeclaredChecked_cairo0_only (n : UInt64) (cs cs' : Classes)
+    (hc : cs'.map (fun x => (x.1, x.2.cairo0)) = cs.map (fun x => (x.1, x.2.cairo0))) : ∀ (m : FMap),
+    casmV2DeclaredChecked n cs' m = casmV2DeclaredChecked n cs m
+  | [] => by simp [casmV2DeclaredChecked]
+  | (c, casm) :: rest => by
+    have hf := find_map_cairo0 cs cs' hc c
+    have ih := casmV2DeclaredChecked_cairo0_only n cs cs' hc rest
+    simp only [casmV2DeclaredChecked]
+    cases h1 : cs'.find? (fun kc => kc.1 == c) <;> cases h2 : cs.find? (fun kc => kc.1 == c) <;> simp [h1, h2] at hf ⊢
+    rw [hf, ih]
+
+theorem casmStepWith_v2_ignores_compiledBad (chk : Bool) (db : IDB) (h : Header) (d : StateDiff) (cs cs' : Classes) (v2of : Nat → Nat)
+    (v : Ver) (hp : parseVersion h.version = some v) (hv : v.ge v0_14_1 = true)
+    (hc : cs'.map (fun x => (x.1, x.2.cairo0)) = cs.map (fun x => (x.1, x.2.cairo0))) :
+    (casmStepWith chk db h d cs' v2of).toOption.isSome = (casmStepWith chk db h d cs v2of).toOption.isSome := by
+  unfold casmStepWith
+  simp only [hp, hv, if_true]
+  rw [casmV2DeclaredChecked_cairo0_only h.number cs cs' hc]
+
 end Juno.C02
